@@ -17,6 +17,23 @@ Theorem C07_walk_complete : forall bodies idxs e rvl e',
   walk bodies false e idxs rvl = Ok (e', rvl).
 Proof. exact walk_complete. Qed.
 
+(* as one statement: a pointer base or a fixed-length vector-of-pointers base, index operands that are scalars
+   or vectors of the one common length n > 0, any element type, any number of indices -- the walker returns a
+   type exactly when LLVM's rule yields one, and it is that type (pointer to the element reached, in the base's
+   address space, vectorised by the first vector operand) *)
+Theorem C07_result_type_llvm : forall bodies n, (0 < n)%N -> forall elem src a bshape idxs shapes t,
+  base_ok n src a bshape -> Forall2 (shape_of_len n) idxs shapes ->
+  (result_type bodies elem src idxs = Ok t <-> llvm_gep bodies elem a bshape shapes (map step_of (tl idxs)) = Some t).
+Proof. exact result_type_llvm_iff. Qed.
+Example C07_result_type_llvm_example :
+  let st := TStruct false [TInt 32; TArr 4 (TInt 8)] in
+  let idxs := [no_val 2; new_index 1; new_index 3] in
+  let shapes := [Vector false 2; Scalar; Scalar] in
+  base_ok 2 (TPtr st 0) 0 Scalar /\ Forall2 (shape_of_len 2) idxs shapes /\
+  llvm_gep (fun _ => None) st 0 Scalar shapes (map step_of (tl idxs)) = Some (TVec false 2 (TPtr (TInt 8) 0)) /\
+  result_type (fun _ => None) st (TPtr st 0) idxs = Ok (TVec false 2 (TPtr (TInt 8) 0)).
+Proof. exact result_type_llvm_example. Qed.
+
 (* the three copies of the index classifier (parser, instruction constructor, alias scaffolds) agree
    on scalar integer / boolean / zeroinitializer / undef / poison / ptrtoint indices and on integer
    vector constants; the expression constructor agrees on non-empty integer vectors *)
